@@ -274,11 +274,10 @@ class Importance(CellModifierInput):
         if value < 0.0:
             raise ValueError("Importance must be ≥ 0.0")
         if self._problem:
+            # through __setitem__: a particle without an importance yet gets one, and a particle
+            # outside the mode that shares an entry (imp:n,p=1 with mode n) keeps its value
             for particle in self._problem.mode:
-                # as in __setitem__: a particle of the mode this cell has no importance for yet
-                if particle not in self._particle_importances:
-                    self._generate_default_cell_tree(particle)
-                self._particle_importances[particle]["data"][0].value = value
+                self[particle] = value
 
     def _clear_data(self):
         if not self.in_cell_block:
